@@ -5,10 +5,12 @@ package schedule
 import (
 	"archive/zip"
 	"encoding/json"
+	"fmt"
 	"io/fs"
 	"math/rand/v2"
 	"os"
 	"path/filepath"
+	"regexp"
 	"runtime"
 	"sort"
 	"strconv"
@@ -567,6 +569,11 @@ var c18JSONToks = []string{
 	"0", "60000", "3600000", "86400000", "86460000", "-60000", "1", "59999", "60000.0", "6e4", "6E4", "3.6e6", "0.5",
 	"1.5", "-0", "1e-3", "1e30", "-1e30", "9007199254", "9007199255", "9223372036854", "9223372036855", "\"60000\"",
 	"null", "true", "{}", "[]", "60000.000001", "86399999.999999", "0.0000001",
+	// fractions of a millisecond, negative fractions, tiny values, exponent forms, huge values
+	"3600000.25", "3600000.5", "3600000.125", "-0.5", "-0.25", "0.2", "0.7", "43200000.9999", "0.25", "0.75", "60000.5",
+	"1e-7", "-1e-7", "1e-6", "5e-7", "0.000001", "-0.000001", "0.0000005", "36e5", "3600000.0", "3600000.000", "3.6E+6",
+	"36000000e-1", "0.0036e9", "1e19", "-1e19", "9.3e18", "1e400", "1e-400", "2100000.000001", "540000.000010",
+	"86400000.000001", "86400000.0000001", "59999.999999", "60000.0000001", "-0.0", "0e0", "0.0", "\"1h\"", "\"\"",
 }
 
 var c18YAMLToks = []string{
@@ -574,6 +581,10 @@ var c18YAMLToks = []string{
 	"-1h", "+1h", "1.5h", "0.5m", "1h30", "1", "60", "h", "m", "1d", "1w", "\"\"", "''", "~", "null", "1h 30m", "1H",
 	"3600000ms", "60000000000ns", "60000000us", "60000000µs", "1m1s", "1m0.5s", "1m1ms", "true", "[]", "{}", "0h", "0m",
 	"00h30m", "1h60m", "9223372036s", "2562047h", "2562048h", "100000000000h",
+	// fractional coefficients, negative zero, seconds, sub-nanosecond fractions
+	"1h0.5s", "-0s", "90s", "24h0m1s", "1m0.000000001s", "1m0.0000000001s", "0.5h", "0.25h", "1.5m", "0.1m", "0.1h", ".5h",
+	"1.h", "1.", ".", ".s", "-.5h", "0.000001ms", "0.5ns", "1.5ns", "23h59m60s", "23h59m59.999999999s", "0.0166666666666666666h",
+	"1m0s", "60.0s", "3600.000s", "1e3s", "-0.5m", "+0.5h", "24.0h", "24.000000001h", "0.016666666666666666h", "1.0000000000000000001m",
 }
 
 var c18DayKeys = []string{"sun", "mon", "tue", "wed", "thu", "fri", "sat"}
@@ -611,15 +622,93 @@ func (g *c18Gen) weeklyValue() *Weekly {
 	return w
 }
 
-// textTemplate writes a document token by token.
-func (g *c18Gen) textTemplate(yml bool) string {
+// c18DayTok is what the generator knows about one day of a generated document.
+type c18DayTok struct {
+	kind       int    // 0: absent or null; 1: an object
+	start, end string // "" = key absent
+}
+
+var c18PlainTok = regexp.MustCompile(`^[-+.0-9a-zA-Zµμ ]+$`)
+
+// tokFields renders the token fields of a decode line.
+func c18TokFields(ok bool, days [7]c18DayTok) (f []string) {
+	f = append(f, vutil.B(ok))
+	t := func(s string) string {
+		if s == "" {
+			return "~"
+		}
+
+		return vutil.Hex(s)
+	}
+	for _, d := range days {
+		f = append(f, strconv.Itoa(d.kind), t(d.start), t(d.end))
+	}
+
+	return f
+}
+
+// nearMinuteTok is a number of milliseconds (JSON) or a duration string (YAML)
+// at a chosen tiny distance from a whole number of minutes.
+func (g *c18Gen) nearMinuteTok(yml bool) string {
 	r := g.r
+	mins := int64(r.IntN(1441))
+	switch r.IntN(4) {
+	case 0:
+		// the binades in which float64(ms)*1e6 loses a nanosecond
+		mins = vutil.Pick(r, []int64{9, 18, 35, 36, 70, 71, 72, 73, 280, 281, 285, 290, 1120, 1130, 1140, 1150})
+	case 1:
+		mins = vutil.Pick(r, []int64{0, 1, 60, 1439, 1440})
+	}
+	// distance in picoseconds
+	d := vutil.Pick(r, []int64{0, 0, 1000, -1000, 2000, 10_000, 1_000_000, 250_000_000, 500_000_000, 125_000_000, 999_999_000,
+		100, -100, 500, 1, 999, 1_000_000_000, 60_000_000_000_000})
+	if r.IntN(8) == 0 {
+		d = r.Int64N(2_000_000_000) - 1_000_000_000
+	}
+	ps := mins*60_000_000_000_000 + d // picoseconds
+	neg := ps < 0
+	if neg {
+		ps = -ps
+	}
+	var out string
+	if yml {
+		// seconds with up to 12 fraction digits, as XmY.Zs
+		m, rest := ps/60_000_000_000_000, ps%60_000_000_000_000
+		sec, frac := rest/1_000_000_000_000, rest%1_000_000_000_000
+		fs := strings.TrimRight(fmt.Sprintf("%012d", frac), "0")
+		out = strconv.FormatInt(m, 10) + "m" + strconv.FormatInt(sec, 10)
+		if fs != "" {
+			out += "." + fs
+		}
+		out += "s"
+	} else {
+		ms, frac := ps/1_000_000_000, ps%1_000_000_000
+		fs := strings.TrimRight(fmt.Sprintf("%09d", frac), "0")
+		out = strconv.FormatInt(ms, 10)
+		if fs != "" {
+			out += "." + fs
+		}
+	}
+	if neg {
+		out = "-" + out
+	}
+
+	return out
+}
+
+// textTemplate writes a document token by token and reports the tokens.
+func (g *c18Gen) textTemplate(yml bool) (text string, days [7]c18DayTok, tokOK bool) {
+	r := g.r
+	tokOK = true
 	toks := c18JSONToks
 	if yml {
 		toks = c18YAMLToks
 	}
-	tok := func() string {
-		if r.IntN(8) > 0 {
+	// a document is mostly valid values with a few interesting ones
+	pBad := 1 + r.IntN(8)
+	tok := func() (t string) {
+		switch k := r.IntN(8 * pBad); {
+		case k >= 16:
 			// a valid value
 			n := int64(r.IntN(1441))
 			if yml {
@@ -629,9 +718,22 @@ func (g *c18Gen) textTemplate(yml bool) string {
 			}
 
 			return strconv.FormatInt(n*60000, 10)
+		case k >= 8:
+			t = g.nearMinuteTok(yml)
+		default:
+			t = vutil.Pick(r, toks)
+		}
+		if !c18PlainTok.MatchString(t) && !(len(t) >= 2 && t[0] == '"' && !yml) {
+			tokOK = false
+		}
+		if yml && (t == "null" || t == "true" || t == "~" || strings.HasPrefix(t, " ") || strings.HasSuffix(t, " ")) {
+			tokOK = false
+		}
+		if !yml && (t == "null" || t == "true") {
+			tokOK = false
 		}
 
-		return vutil.Pick(r, toks)
+		return t
 	}
 	tz := vutil.Pick(r, c18TZPool)
 	if r.IntN(2) == 0 {
@@ -642,35 +744,55 @@ func (g *c18Gen) textTemplate(yml bool) string {
 		if r.IntN(12) > 0 {
 			sb.WriteString("time_zone: " + strconv.Quote(tz) + "\n")
 		}
-		for _, k := range c18DayKeys {
+		for i, k := range c18DayKeys {
 			switch r.IntN(8) {
 			case 0, 1, 2:
 				continue
 			case 3:
-				sb.WriteString(k + ":\n    start: " + tok() + "\n")
+				days[i] = c18DayTok{kind: 1, start: tok()}
+				sb.WriteString(k + ":\n    start: " + days[i].start + "\n")
 			case 4:
-				sb.WriteString(k + ": " + vutil.Pick(r, []string{"~", "{}", "[]", "1h", "\"\""}) + "\n")
+				v := vutil.Pick(r, []string{"~", "{}", "[]", "1h", "\"\""})
+				switch v {
+				case "~":
+				case "{}":
+					days[i] = c18DayTok{kind: 1}
+				default:
+					tokOK = false
+				}
+				sb.WriteString(k + ": " + v + "\n")
 			default:
-				sb.WriteString(k + ":\n    start: " + tok() + "\n    end: " + tok() + "\n")
+				days[i] = c18DayTok{kind: 1, start: tok(), end: tok()}
+				sb.WriteString(k + ":\n    start: " + days[i].start + "\n    end: " + days[i].end + "\n")
 			}
 		}
 		if r.IntN(20) == 0 {
 			sb.WriteString("extra: 1\n")
 		}
 
-		return sb.String()
+		return sb.String(), days, tokOK
 	}
 	parts := []string{}
-	for _, k := range c18DayKeys {
+	for i, k := range c18DayKeys {
 		switch r.IntN(8) {
 		case 0, 1, 2:
 			continue
 		case 3:
-			parts = append(parts, `"`+k+`":{"start":`+tok()+`}`)
+			days[i] = c18DayTok{kind: 1, start: tok()}
+			parts = append(parts, `"`+k+`":{"start":`+days[i].start+`}`)
 		case 4:
-			parts = append(parts, `"`+k+`":`+vutil.Pick(r, []string{"null", "{}", "[]", "1", `"x"`}))
+			v := vutil.Pick(r, []string{"null", "{}", "[]", "1", `"x"`})
+			switch v {
+			case "null":
+			case "{}":
+				days[i] = c18DayTok{kind: 1}
+			default:
+				tokOK = false
+			}
+			parts = append(parts, `"`+k+`":`+v)
 		default:
-			parts = append(parts, `"`+k+`":{"start":`+tok()+`,"end":`+tok()+`}`)
+			days[i] = c18DayTok{kind: 1, start: tok(), end: tok()}
+			parts = append(parts, `"`+k+`":{"start":`+days[i].start+`,"end":`+days[i].end+`}`)
 		}
 	}
 	if r.IntN(12) > 0 {
@@ -682,7 +804,7 @@ func (g *c18Gen) textTemplate(yml bool) string {
 	}
 	r.Shuffle(len(parts), func(i, j int) { parts[i], parts[j] = parts[j], parts[i] })
 
-	return "{" + strings.Join(parts, ",") + "}"
+	return "{" + strings.Join(parts, ",") + "}", days, tokOK
 }
 
 func c18Mutate(r *rand.Rand, s string) string {
@@ -716,8 +838,10 @@ func c18Mutate(r *rand.Rand, s string) string {
 func (g *c18Gen) genDecode(yml bool) {
 	r := g.r
 	var text string
+	var toks [7]c18DayTok
+	tokOK := false
 	switch k := r.IntN(10); {
-	case k < 5:
+	case k < 4:
 		// the real encoder on a schedule value: this is the round trip from the value side
 		w := g.weeklyValue()
 		var data []byte
@@ -731,18 +855,36 @@ func (g *c18Gen) genDecode(yml bool) {
 			panic(err)
 		}
 		text = string(data)
-	case k < 9:
-		text = g.textTemplate(yml)
+		// the tokens the duration types write
+		tokOK = true
+		for i, d := range w.days {
+			if (d == dayRange{}) {
+				continue
+			}
+			var a, b []byte
+			if yml {
+				a, _ = timeutil.Duration(d.start).MarshalText()
+				b, _ = timeutil.Duration(d.end).MarshalText()
+			} else {
+				a, _ = aghhttp.JSONDuration(d.start).MarshalJSON()
+				b, _ = aghhttp.JSONDuration(d.end).MarshalJSON()
+			}
+			toks[i] = c18DayTok{kind: 1, start: string(a), end: string(b)}
+			if !c18PlainTok.MatchString(string(a)) || !c18PlainTok.MatchString(string(b)) {
+				tokOK = false
+			}
+		}
 	default:
-		text = g.textTemplate(yml)
+		text, toks, tokOK = g.textTemplate(yml)
 	}
-	if r.IntN(10) == 0 {
+	if r.IntN(12) == 0 {
 		text = c18Mutate(r, text)
+		tokOK = false
 	}
-	g.emitDecode(yml, text)
+	g.emitDecode(yml, text, tokOK, toks)
 }
 
-func (g *c18Gen) emitDecode(yml bool, text string) {
+func (g *c18Gen) emitDecode(yml bool, text string, tokOK bool, toks [7]c18DayTok) {
 	op := "C18.json"
 	f := []string{vutil.Hex(text)}
 	var tz string
@@ -771,6 +913,7 @@ func (g *c18Gen) emitDecode(yml bool, text string) {
 	for _, d := range days {
 		f = append(f, strconv.FormatInt(d[0], 10), strconv.FormatInt(d[1], 10), strconv.FormatInt(d[2], 10))
 	}
+	f = append(f, c18TokFields(tokOK, toks)...)
 	g.emit(append([]string{op}, f...)...)
 }
 
@@ -797,7 +940,21 @@ func (g *c18Gen) genToken() {
 		case 1:
 			t = strconv.FormatInt(r.Int64N(20_000_000_000)-10_000_000_000, 10)
 		case 2:
-			t = strconv.FormatInt(int64(r.IntN(1441))*60000, 10)
+			switch r.IntN(4) {
+			case 0:
+				t = strconv.FormatInt(int64(r.IntN(1441))*60000, 10)
+			case 1:
+				t = g.nearMinuteTok(false)
+			case 2:
+				// a random decimal with up to 9 fraction digits, sometimes in exponent form
+				t = strconv.FormatInt(r.Int64N(200_000_000)-50_000_000, 10) + "." + strconv.Itoa(r.IntN(1_000_000_000))
+				if r.IntN(3) == 0 {
+					t += vutil.Pick(r, []string{"e0", "e1", "e-1", "E3", "e-6", "e+2", "e-9", "e12", "e-20"})
+				}
+			default:
+				// mantissa x power of ten
+				t = strconv.FormatInt(r.Int64N(1_000_000), 10) + "e" + strconv.Itoa(r.IntN(40)-20)
+			}
 		}
 		g.emit("C18.jsondur", vutil.Hex(t))
 	case 1:
@@ -827,7 +984,19 @@ func (g *c18Gen) genToken() {
 				t = vutil.Pick(r, []string{"-", "+"}) + t
 			}
 		case 2:
-			t = c18Mutate(r, t)
+			switch r.IntN(3) {
+			case 0:
+				t = c18Mutate(r, t)
+			case 1:
+				t = g.nearMinuteTok(true)
+			default:
+				// fractional coefficients
+				units := []string{"h", "m", "s", "ms", "us", "ns"}
+				t = ""
+				for i := r.IntN(3); i >= 0; i-- {
+					t += strconv.Itoa(r.IntN(100)) + "." + strings.Repeat("0", r.IntN(3)) + strconv.Itoa(r.IntN(100000)) + vutil.Pick(r, units)
+				}
+			}
 		}
 		g.emit("C18.yamldur", vutil.Hex(t))
 	default:
